@@ -108,8 +108,9 @@ def op_table(kind):
         'setattr': lambda o: setattr(o, v, 7.0),
         'setlabel': lambda o: o.__setitem__((v, 12), -3.0),
         'add_variable': lambda o: o.add_variable('Znew', [4, 5, 6, 7]),
-        'newattr': lambda o: setattr(o, 'foo', [1, 2]),
-        'foo.append': lambda o: o.foo.append(3) if 'foo' in vars(o) else o.add_attribute('foo', [9]),
+        'newattr': lambda o: setattr(o, 'foo', {'k': [1, 2], 'arr': np.zeros(2)}),   # an ad hoc attribute holding NESTED mutable objects
+        'foo.append': lambda o: o.foo['k'].append(3) if 'foo' in vars(o) else o.add_attribute('foo', {'k': [9], 'arr': np.ones(2)}),
+        'foo.arr[0]=': lambda o: o.foo['arr'].__setitem__(0, 7.0) if 'foo' in vars(o) else None,
         'strict': lambda o: setattr(o, 'strict', not o.strict),
         'span[0]=': lambda o: o.span.__setitem__(0, 77),
     }
@@ -262,6 +263,22 @@ def run_scenario(case):
         if class_state(cls) != class_before:
             out.append(('leak:class:%s' % name, 'class attributes unchanged', diff_obs(class_before, class_state(cls)), 'an instance mutation changed the class'))
             break
+    # the same caller-owned 2-D array assigned to both sides must not tie them together (values are copied in)
+    if not out and not post[1:] and kind != 'container':
+        try:
+            ext = np.array(orig.values, dtype=float)
+            if ext.ndim == 2 and ext.size and ext.shape == np.shape(cp.values):
+                orig.values = ext
+                cp.values = ext
+                snap_other = observe(cp)
+                first = (list(orig.names) if hasattr(orig, 'names') else list(orig.index))[0]
+                orig[first][0] = -777.0
+                if observe(cp) != snap_other:
+                    out.append(('leak:shared-external-array', 'copy unchanged', diff_obs(snap_other, observe(cp)), 'after the same array was assigned to .values of both sides a write to one side shows on the other'))
+                elif ext[0][0] == -777.0:
+                    out.append(('leak:caller-array-adopted', 'caller array untouched', 'changed', 'the container adopted the caller\'s array instead of copying its values'))
+        except Exception:
+            pass  # the probe does not apply in this state (strict object, non-numeric variables, ...)
     # restore the class if an instance history damaged it, so later scenarios start clean
     if class_state(cls) != class_before:
         _restore_class(cls)
